@@ -30,6 +30,8 @@ type Job struct {
 	Src       string
 	N         int
 	Only      []int    // when set: run only these cases (the others stay "skipped")
+	Warm      string   // exported no-op function called (untimed) on a fresh instance, so that the
+	                   // per-case horizon measures the case and not the instantiation of the module
 	Expect    []string // when set: stop after the first case whose outcome is not "ok" with this output
 	HorizonMs int64    // per case
 }
@@ -46,6 +48,7 @@ type JobResult struct {
 var (
 	cachedKey  string
 	cachedProg *wrun.WaProg
+	instFresh  bool // the next call on cachedProg instantiates the module
 	limitOnce  sync.Once
 )
 
@@ -86,6 +89,7 @@ func HandleJob(raw json.RawMessage) interface{} {
 			return JobResult{Err: err.Error(), WaSrc: wa}
 		}
 		cachedKey, cachedProg = key, p
+		instFresh = true
 	}
 	p := cachedProg
 	out := JobResult{Res: make([]wrun.CaseResult, j.N), Ms: make([]int64, j.N)}
@@ -101,6 +105,13 @@ func HandleJob(raw json.RawMessage) interface{} {
 			continue
 		}
 		fmt.Fprintf(os.Stderr, "HRUNPROGRESS %s case %d\n", j.ID, i)
+		if j.Warm != "" && instFresh {
+			if w := p.Call(j.Warm); w.Status != "ok" {
+				out.Err = "instantiating the module / calling the no-op case fails: " + w.Status + " " + w.Err
+				return out
+			}
+			instFresh = false
+		}
 		t0 := time.Now()
 		done := make(chan wrun.CaseResult, 1)
 		// A call that spins inside compiled wasm code is not preemptible, so a garbage collection
@@ -111,6 +122,9 @@ func HandleJob(raw json.RawMessage) interface{} {
 		case r := <-done:
 			debug.SetGCPercent(gcp)
 			out.Res[i] = r
+			if r.Status != "ok" {
+				instFresh = true // wrun closes the instance after a trap
+			}
 			out.Ms[i] = time.Since(t0).Milliseconds()
 		case <-time.After(time.Duration(j.HorizonMs) * time.Millisecond):
 			// The call keeps spinning and cannot be stopped: answer (the remaining cases stay
@@ -131,7 +145,8 @@ func HandleJob(raw json.RawMessage) interface{} {
 // Program is one source with N case functions and its outcome on both sides.
 type Program struct {
 	Src     string
-	N       int
+	N       int           // number of CaseN functions in Src
+	Warm    bool          // the last case is a no-op used to instantiate the module outside the horizon
 	Horizon time.Duration // per case; classifies hangs only
 	Tag     interface{}
 
@@ -182,6 +197,9 @@ func Run(r *mc.Run, pool *mc.Pool, ps []*Program, stopFirst, obeyDeadline bool) 
 			p.Wa.Res[k].Status = "skipped"
 		}
 		p.WaErr = ""
+		if p.Warm {
+			p.Wa.Res[p.N-1].Status = "ok"
+		}
 		todo = append(todo, item{p: i, lastCrash: -1})
 	}
 	for len(todo) > 0 {
@@ -200,6 +218,14 @@ func Run(r *mc.Run, pool *mc.Pool, ps []*Program, stopFirst, obeyDeadline bool) 
 			seqMu.Unlock()
 			jobIDs[k] = id
 			j := Job{ID: id, Src: p.Src, N: p.N, Only: it.only, HorizonMs: p.Horizon.Milliseconds()}
+			if p.Warm {
+				j.Warm = "case_" + strconv.Itoa(p.N-1)
+				if j.Only == nil {
+					for k := 0; k < p.N-1; k++ {
+						j.Only = append(j.Only, k)
+					}
+				}
+			}
 			if stopFirst && p.GoErr == nil {
 				for _, g := range p.GoRes {
 					j.Expect = append(j.Expect, g.Out)
@@ -240,7 +266,13 @@ func Run(r *mc.Run, pool *mc.Pool, ps []*Program, stopFirst, obeyDeadline bool) 
 					}
 					return
 				}
-				if it.tries < 5 {
+				// a job that never started (the pool handed it to a worker that had already retired)
+				// is cheap to retry; one that died in mid-flight twice at different cases is not
+				limit := 6
+				if at < 0 {
+					limit = 100
+				}
+				if it.tries < limit {
 					it.tries++
 					it.lastCrash = at
 					mu.Lock()
@@ -264,7 +296,7 @@ func Run(r *mc.Run, pool *mc.Pool, ps []*Program, stopFirst, obeyDeadline bool) 
 			var rest []int
 			hung := false
 			for k := range jr.Res {
-				if it.only != nil && !contains(it.only, k) {
+				if (it.only != nil && !contains(it.only, k)) || (p.Warm && k == p.N-1) {
 					continue
 				}
 				p.Wa.Res[k] = jr.Res[k]
